@@ -76,3 +76,11 @@ Proof.
   split; [|split; [apply WF_empty|vm_compute; reflexivity]].
   split; [lia|]. split; [intros i Hi; lia|]. intros i Hi. rewrite (refines_empty MAI (KInt i)). reflexivity.
 Qed.
+
+(* hypothesis of getn_maxn: the hash part of tl holds no numeric key (only the string key "x") *)
+Example tl_no_numeric_hash : forall k, In k (map fst (dict tl)) -> num_ltb (KInt 3) k = false.
+Proof. intros k []. Qed.
+
+(* hypothesis of remove_outside *)
+Example tl_outside : optz (Some 4) 3 < 1 \/ 3 < optz (Some 4) 3.
+Proof. right. reflexivity. Qed.
